@@ -38,6 +38,7 @@ RULE = (
     " Round 5: the body may raise any class of the library's exception hierarchy or common built-ins (`body_exc`); a `bystander` gateway in the same loop must keep saving on schedule and leave nothing behind."
     ' Round 6: `new_loop` - after the first session the same gateway object runs a full session under a second event loop.'
     ' Round 7: fault `disconnect-hang` (the leaving task is cancelled while disconnect hangs).'
+    ' Round 8: fault `connect-once` (retry on the same object after a failed connect).'
 )
 ASSUMPTIONS = [
     "threads are replaced by an inline executor: outcomes are the same at file-operation granularity, thread races inside aiofiles are not explored",
